@@ -611,6 +611,15 @@ impl<'a> Printer<'a> {
     }
 
     pub fn type_defs(&mut self) {
+        for (name, ty, val) in self.defs.consts.clone() {
+            self.emit("const");
+            self.emit(&name);
+            self.emit(":");
+            self.ty(&ty);
+            self.emit("=");
+            self.lit(&val, &ty);
+            self.emit(";");
+        }
         for sd in self.defs.structs.clone() {
             self.emit("struct");
             self.emit(&sd.name);
